@@ -126,6 +126,9 @@ def generate(rng, tier, mode="default"):
             out.append([hdr()] + build("a", vals) + ["a sort_in_place key"] + probe()[:4] + ["END"])
             if ln <= 4:
                 out.append([hdr()] + build("a", vals) + ["a sort", "a sort_in_place val"] + probe()[:4] + ["END"])
+            if 2 <= ln <= 5:
+                # the qsort-based sort with a comparator under which distinct elements tie (every element must survive)
+                out.append([hdr()] + build("a", vals) + ["a sort key"] + probe()[:4] + ["END"])
     # ---------------------------------------------------------------- fault plans
     for plan in ("0", "10", "01", "00"):
         out.append([hdr(plan=plan), "a add_last 1", "b add_last 2", "END"])
